@@ -205,7 +205,14 @@ struct Exec
                 c->setEncapsulationId("cenc" + str(i));
             }
             if (r.chance(1, 3) && !c->name().empty()) {
-                c->setMath("<math xmlns=\"http://www.w3.org/1998/Math/MathML\"><ci>c" + str(i) + "</ci></math>");
+                if ((plan.c("useed", 1) + i) % 3 == 0) {
+                    // math that names units in a cn element (units of the model, or units that exist nowhere); decided
+                    // without a draw so that recorded plans keep the universes they were found in
+                    std::string un = (plan.c("useed", 1) / 3) % 2 == 0 ? "u0" : "units_defined_nowhere";
+                    c->setMath("<math xmlns=\"http://www.w3.org/1998/Math/MathML\" xmlns:cellml=\"http://www.cellml.org/cellml/2.0#\"><apply><eq/><ci>c" + str(i) + "</ci><cn cellml:units=\"" + un + "\">1</cn></apply></math>");
+                } else {
+                    c->setMath("<math xmlns=\"http://www.w3.org/1998/Math/MathML\"><ci>c" + str(i) + "</ci></math>");
+                }
             }
             if (!imps.empty() && i > 0 && r.chance(1, 4)) {
                 c->setImportSource(r.pick(imps));
